@@ -710,6 +710,33 @@ mod verif_bounded_mdk {
             }
         }
     }
+    // C02 "any order relative to ... commits ... inside the past-epoch window": a message of epoch n that reaches a member AFTER the commit
+    // n -> n+1 is stored -- also when that commit rotated the group's Nostr group id (the late wrapper carries the old id), and also the
+    // sender's own copy (its echo confirms it). Scope: one message, one rotating commit, message delivered after the commit, twice; both back ends.
+    // Its own test and label: see known_findings.txt if the unchanged tree fails it.
+    #[test]
+    fn message_delivered_after_a_commit_that_rotates_the_nostr_group_id_history() {
+        let label = "mdk_backends_bounded.message_delivered_after_a_commit_that_rotates_the_nostr_group_id_history";
+        let mut w = setup();
+        w.alice_msg(label, "m1");
+        let late = w.b.create_message(&w.gid, create_test_rumor(&w.bk, "bob's message of epoch 1, delivered late")).unwrap();
+        let rot = w.a.update_group_data(&w.gid, NostrGroupDataUpdate::new().nostr_group_id([0x55; 32])).unwrap().evolution_event;
+        w.a.merge_pending_commit(&w.gid).unwrap(); w.b.process_message(&rot).unwrap();
+        w.deliver(label, "alice's commit 1 -> 2, which rotates the Nostr group id", &rot);
+        w.deliver(label, "bob's message of epoch 1 (wrapper tagged with the old Nostr group id), one epoch late", &late);
+        w.deliver(label, "the same message offered again", &late);
+        for (who, f) in [("memory-backed", fp(&w.mem, &w.gid)), ("SQLite-backed", fp(&w.sql, &w.gid))] {
+            if f.messages.iter().filter(|m| m.1 == "Processed").count() != 2 {
+                panic!("BOUNDED-COUNTEREXAMPLE {label}: scenario [history: {}] the {who} bystander does not hold bob's late message: expected 2 valid messages (m1 and bob's) ; got {:?}", w.log.join(" ; "), f.messages);
+            }
+        }
+        // the sender's own copy is confirmed by its echo
+        let _ = w.b.process_message(&late);
+        let fb = fp(&w.b, &w.gid);
+        if fb.messages.iter().any(|m| m.1 == "Created") {
+            panic!("BOUNDED-COUNTEREXAMPLE {label}: scenario [history: {} ; bob receives the echo of his own message] bob's own copy is not confirmed: {:?}", w.log.join(" ; "), fb.messages);
+        }
+    }
     // C05: a commit that a NON-admin member builds directly with the MLS library (bypassing the client-side admin gate) and that does
     // more than refresh its author's own key -- a group-data rewrite making the author an admin, a removal, an add -- is refused by
     // both bystanders and leaves them exactly as they were. Scope: one hostile member, three crafted commits, each delivered twice.
